@@ -304,6 +304,7 @@ func run(c *runner.Ctx) {
 		{"2 threads each building and closing a WAF with shared patterns", 33, b3},
 		{"2 threads building WAFs that introduce new transformation chains, then one WAF using both chains", 44, b3},
 		{"2 complete exchanges (5 phases, both body processors, 30 operator / transformation families) on one shared WAF", 55, b3 + 1},
+		{"2 threads building WAFs whose long phrase lists differ only at the end, then each WAF probed with both distinguishing words", 66, b3},
 	}
 	wide, err := scen.Build(wideConf)
 	if err != nil {
@@ -361,6 +362,8 @@ func run(c *runner.Ctx) {
 				},
 			}
 			var chosen []func()
+			var built []coraza.WAF
+			var words [2]string
 			switch sc.threads {
 			case 2, 22:
 				chosen = bodies[:2]
@@ -394,6 +397,24 @@ func run(c *runner.Ctx) {
 					func() { out[0] = outcome(wx, 0); out[0] = outcome(wx, 0) },
 					func() { out[1] = outcome(wx, 1); out[1] = outcome(wx, 1) },
 				}
+			case 66:
+				// pattern-cache keys that agree on their first ~200 bytes: a builder must still get the automaton of its own list
+				chainSeq++
+				common := strings.Repeat("commonword ", 20)
+				confA := fmt.Sprintf("SecRuleEngine On\nSecRule ARGS:q \"@pm %salpha%d\" \"id:1,phase:1,deny,status:403\"\n", common, chainSeq)
+				confB := fmt.Sprintf("SecRuleEngine On\nSecRule ARGS:q \"@pm %sbeta%d\" \"id:1,phase:1,deny,status:403\"\n", common, chainSeq)
+				built = make([]coraza.WAF, 2)
+				words = [2]string{fmt.Sprintf("alpha%d", chainSeq), fmt.Sprintf("beta%d", chainSeq)}
+				mk := func(i int, conf string) func() {
+					return func() {
+						w2, err := scen.Build(conf)
+						if err != nil {
+							panic("phrase WAF: " + err.Error())
+						}
+						built[i] = w2
+					}
+				}
+				chosen = []func(){mk(0, confA), mk(1, confB)}
 			case 55:
 				scen.YieldBetweenCalls = true
 				defer func() { scen.YieldBetweenCalls = false }()
@@ -452,6 +473,19 @@ func run(c *runner.Ctx) {
 					}
 				case 33:
 					want = ""
+				case 66:
+					want = ""
+					for i, w2 := range built {
+						if w2 == nil {
+							continue
+						}
+						for j, word := range words {
+							o := scen.Run(w2, scen.Req{URI: "/p?q=" + word}, scen.Options{})
+							if denied := o.Interruption != "-"; denied != (i == j) {
+								report("waf-built-concurrently-uses-another-wafs-phrase-list", fmt.Sprintf("WAF %d (its list ends in %s) answers %s to q=%s", i, words[i], o.Interruption, word))
+							}
+						}
+					}
 				case 55:
 					want = wideAudit
 					for i := 0; i < 2; i++ {
@@ -476,6 +510,11 @@ func run(c *runner.Ctx) {
 				}
 				if want != "" && audit != want {
 					report("audit-records-differ", fmt.Sprintf("audit records under this schedule:\n%s\n--- alone:\n%s", audit, want))
+				}
+			}
+			for _, w2 := range built {
+				if w2 != nil {
+					scen.Close(w2)
 				}
 			}
 			c.Outcome(strings.Join(out, "|"))
